@@ -117,6 +117,17 @@ def run(v, prefixes=("C08",), pid="C08"):
             except Exception:
                 continue
             events.append(cp.compact_event(cp.permuted([faces[f]] + cover, rng, dup=False)))
+    # a whole level minus one cell, plus one cell of another resolution inside the hole (as many distinct cells as the level has)
+    for lvl in (0, 1, 2):
+        level = ser.cell_to_children(0, lvl)
+        for _ in range(2 if quick else 6):
+            k = rng.randrange(1, len(level) - 1)
+            hole = level[k]
+            rest = level[:k] + level[k + 1:]
+            finer = rng.choice(ser.cell_to_children(hole))
+            events.append(cp.compact_event(cp.permuted(rest + [finer], rng, dup=False)))
+            if pid == "C08" and lvl >= 1:
+                events.append(cp.compact_event(cp.permuted(rest + [ser.cell_to_parent(level[(k + 7) % len(level)])], rng, dup=False)))
     # subsets of the twelve faces (eleven of them, after the client removed one from a list the API gave it)
     for k in range(10 if quick else 60):
         sub = list(faces)
